@@ -1,4 +1,5 @@
 """C17 driver: solve_cg / solve_bp in cutting-stock mode and with a custom pricing function over an explicit pool."""
+from drivers.labels import cont_mode, seq1, seq2
 import random
 
 
@@ -28,7 +29,8 @@ def run_cut(case):
         W = float(case["W"]) if case.get("floats") else case["W"]
         for solver, fn in (("cg", solve_cg), ("bp", solve_bp)):
             try:
-                events.append(_event(solver, fn(case["demands"], roll_width=W, piece_sizes=case["sizes"])))
+                cm = cont_mode(case)
+                events.append(_event(solver, fn(seq1(case["demands"], cm), roll_width=W, piece_sizes=seq1(case["sizes"], cm))))
             except Exception as ex:  # noqa: BLE001
                 events.append({"e": "raise", "solver": solver, "what": type(ex).__name__ + (":" + str(ex) if isinstance(ex, ValueError) else "")})
         for mi in case.get("max_iters", (0, 1, 2)):          # an iteration limit must not produce a false OPTIMAL
